@@ -527,7 +527,7 @@ type verifC14Params struct {
 	seed, n, restarts, quota, cancels, prio0, holds, kills int
 	crash, deadlock, destroyErr                            int // percent
 	broken, missing, reportBroken                          int // every k-th VM (0 = never)
-	staleMs, durMs, detachMs                               int
+	staleMs, durMs, detachMs, rateLimitMs                  int
 }
 
 func verifC14Parse(f []string) (p verifC14Params, ok bool) {
@@ -576,6 +576,8 @@ func verifC14Parse(f []string) (p verifC14Params, ok bool) {
 			p.durMs = v
 		case "detach":
 			p.detachMs = v
+		case "ratelimit":
+			p.rateLimitMs = v
 		default:
 			return p, false
 		}
@@ -625,6 +627,8 @@ func verifC14Run(p verifC14Params) (out string) {
 		AuthorizedKeys:            []ssh.PublicKey{dispatchpub},
 		ErrorRateDestroy:          float64(p.destroyErr) / 100,
 		MinTimeBetweenCreateCalls: time.Millisecond,
+		// the cloud answers Instances() calls that come too soon with a rate-limit error
+		MinTimeBetweenInstancesCalls: time.Duration(p.rateLimitMs) * time.Millisecond,
 	}
 	cl := &verifC14Cloud{sd: sd, quota: p.quota}
 	verifC14Seq++
